@@ -121,6 +121,32 @@ theorem CountInv.mono {s s' : St} (h : CountInv s) (hi : s'.issued = s.issued)
   · rw [hi]; exact h.kDistinct
   · intro e he; rw [hi] at he; rw [hs]; exact h.issuedStatic e he
 
+theorem beginExec_countInv (s : St) (i : Nat) (c : Copy) (hc : s.copies[i]? = some c) (h : CountInv s) :
+    CountInv (beginExec s i c).1 := by
+  have hst : statics (updCopy s.copies i fun c => { c with results := c.results ++ [unknownOf c.name] }) =
+      statics s.copies := statics_updCopy _ _ _ (fun _ => ⟨rfl, rfl⟩)
+  have hlen := sharedLen_updCopy_succ s.copies i
+    (fun c => { c with results := c.results ++ [unknownOf c.name] }) c hc (fun c => by simp)
+  simp only [beginExec]
+  refine ⟨?_, ?_, ?_⟩
+  · intro e he
+    simp only [List.mem_cons] at he
+    simp only [hlen]
+    rcases he with rfl | he
+    · exact Nat.lt_succ_self _
+    · exact Nat.lt_succ_of_lt (h.kLt e he)
+  · simp only [List.pairwise_cons]
+    refine ⟨?_, h.kDistinct⟩
+    intro a ha
+    have := h.kLt a ha
+    omega
+  · intro e he
+    simp only [List.mem_cons] at he
+    simp only [hst]
+    rcases he with rfl | he
+    · exact ⟨c.pfx, mem_statics_of_getElem? hc, rfl⟩
+    · exact h.issuedStatic e he
+
 theorem step_countInv (s : St) (ev : Event) (h : CountInv s) : CountInv (step s ev).1 := by
   cases ev with
   | start i =>
@@ -131,28 +157,7 @@ theorem step_countInv (s : St) (ev : Event) (h : CountInv s) : CountInv (step s 
       simp only
       split
       · exact h
-      · have hst : statics (updCopy s.copies i fun c => { c with results := c.results ++ [unknownOf c.name] }) =
-            statics s.copies := statics_updCopy _ _ _ (fun _ => ⟨rfl, rfl⟩)
-        have hlen := sharedLen_updCopy_succ s.copies i
-          (fun c => { c with results := c.results ++ [unknownOf c.name] }) c hc (fun c => by simp)
-        refine ⟨?_, ?_, ?_⟩
-        · intro e he
-          simp only [List.mem_cons] at he
-          simp only [hlen]
-          rcases he with rfl | he
-          · exact Nat.lt_succ_self _
-          · exact Nat.lt_succ_of_lt (h.kLt e he)
-        · simp only [List.pairwise_cons]
-          refine ⟨?_, h.kDistinct⟩
-          intro a ha
-          have := h.kLt a ha
-          omega
-        · intro e he
-          simp only [List.mem_cons] at he
-          simp only [hst]
-          rcases he with rfl | he
-          · exact ⟨c.pfx, mem_statics_of_getElem? hc, rfl⟩
-          · exact h.issuedStatic e he
+      · exact beginExec_countInv s i c hc h
   | finish j o =>
     simp only [step, finish]
     cases hp : s.pending[j]? with
@@ -183,20 +188,31 @@ theorem step_countInv (s : St) (ev : Event) (h : CountInv s) : CountInv (step s 
         apply sharedLen_updCopy_ge
         intro c0 _; simp
       · exact h
-  | pre i o =>
-    simp only [step, preStep]
+  | create i o =>
+    simp only [step, createStep]
     cases hc : s.copies[i]? with
     | none => exact h
     | some c =>
       simp only
-      cases hs : settle (c.results ++ [unknownOf c.preName]) s.job c.preName (uidOf c.prePfx c.results.length) o with
-      | error err => exact h
-      | ok r => exact h.mono rfl rfl (Nat.le_refl _)
+      split
+      · exact h
+      · cases hs : settle (c.results ++ [unknownOf c.preName]) s.job c.preName (uidOf c.prePfx c.results.length) o with
+        | error err => exact h
+        | ok r =>
+          simp only
+          split
+          · exact beginExec_countInv _ i c hc (h.mono rfl rfl (Nat.le_refl _))
+          · refine h.mono rfl (statics_updCopy _ _ _ (fun _ => ⟨rfl, rfl⟩)) ?_
+            apply sharedLen_updCopy_ge
+            intro c0 _; simp
 
 theorem run_countInv (s : St) (evs : List Event) (h : CountInv s) : CountInv (run s evs).1 := by
   induction evs generalizing s with
   | nil => exact h
   | cons e es ih => simp only [run]; exact ih _ (step_countInv s e h)
+
+theorem statics_beginExec (s : St) (i : Nat) (c : Copy) : statics (beginExec s i c).1.copies = statics s.copies :=
+  statics_updCopy _ _ _ (fun _ => ⟨rfl, rfl⟩)
 
 theorem statics_step (s : St) (ev : Event) : statics (step s ev).1.copies = statics s.copies := by
   cases ev with
@@ -204,7 +220,7 @@ theorem statics_step (s : St) (ev : Event) : statics (step s ev).1.copies = stat
     simp only [step, start]
     cases hc : s.copies[i]? with
     | none => rfl
-    | some c => simp only; split; rfl; exact statics_updCopy _ _ _ (fun _ => ⟨rfl, rfl⟩)
+    | some c => simp only; split; rfl; exact statics_beginExec s i c
   | finish j o =>
     simp only [step, finish]
     cases hp : s.pending[j]? with
@@ -223,15 +239,21 @@ theorem statics_step (s : St) (ev : Event) : statics (step s ev).1.copies = stat
     cases hc : s.copies[i]? with
     | none => rfl
     | some c => simp only; split; exact statics_updCopy _ _ _ (fun _ => ⟨rfl, rfl⟩); rfl
-  | pre i o =>
-    simp only [step, preStep]
+  | create i o =>
+    simp only [step, createStep]
     cases hc : s.copies[i]? with
     | none => rfl
     | some c =>
       simp only
-      cases hs : settle (c.results ++ [unknownOf c.preName]) s.job c.preName (uidOf c.prePfx c.results.length) o with
-      | error err => rfl
-      | ok r => rfl
+      split
+      · rfl
+      · cases hs : settle (c.results ++ [unknownOf c.preName]) s.job c.preName (uidOf c.prePfx c.results.length) o with
+        | error err => rfl
+        | ok r =>
+          simp only
+          split
+          · exact statics_beginExec _ i c
+          · exact statics_updCopy _ _ _ (fun _ => ⟨rfl, rfl⟩)
 
 theorem statics_run (s : St) (evs : List Event) : statics (run s evs).1.copies = statics s.copies := by
   induction evs generalizing s with
@@ -341,5 +363,296 @@ theorem contains_append_false {l1 l2 : List String} {a : String}
   rw [Bool.eq_false_iff] at *
   simp only [ne_eq, List.contains_iff_mem, List.mem_append] at *
   rintro (h | h); exact h1 h; exact h2 h
+
+/-! ### per-copy facts: static projections and own result counts along steps -/
+
+theorem map_updCopy {α : Type} (g : Copy → α) (cs : List Copy) (i : Nat) (f : Copy → Copy)
+    (hf : ∀ c, g (f c) = g c) : (updCopy cs i f).map g = cs.map g := by
+  induction cs generalizing i with
+  | nil => rfl
+  | cons c rest ih =>
+    cases i with
+    | zero => simp [updCopy, hf c]
+    | succ i => simp only [updCopy, List.map_cons]; rw [ih]
+
+/-- any projection of the copies that ignores `results` is constant along steps -/
+theorem map_step {α : Type} (g : Copy → α) (hg : ∀ (c : Copy) (rs : List Result), g { c with results := rs } = g c)
+    (s : St) (ev : Event) : (step s ev).1.copies.map g = s.copies.map g := by
+  cases ev with
+  | start i =>
+    simp only [step, start]
+    cases hc : s.copies[i]? with
+    | none => rfl
+    | some c => simp only; split; rfl; exact map_updCopy g _ _ _ (fun c => hg c _)
+  | finish j o =>
+    simp only [step, finish]
+    cases hp : s.pending[j]? with
+    | none => rfl
+    | some e =>
+      simp only
+      cases hc : s.copies[e.copy]? with
+      | none => rfl
+      | some c =>
+        simp only
+        cases hs : settle c.results s.job e.name e.uid o with
+        | error err => rfl
+        | ok r => exact map_updCopy g _ _ _ (fun c => hg c _)
+  | replay i prev =>
+    simp only [step, replayStep]
+    cases hc : s.copies[i]? with
+    | none => rfl
+    | some c => simp only; split; exact map_updCopy g _ _ _ (fun c => hg c _); rfl
+  | create i o =>
+    simp only [step, createStep]
+    cases hc : s.copies[i]? with
+    | none => rfl
+    | some c =>
+      simp only
+      split
+      · rfl
+      · cases hs : settle (c.results ++ [unknownOf c.preName]) s.job c.preName (uidOf c.prePfx c.results.length) o with
+        | error err => rfl
+        | ok r =>
+          simp only
+          split
+          · exact map_updCopy g _ _ _ (fun c => hg c _)
+          · exact map_updCopy g _ _ _ (fun c => hg c _)
+
+theorem map_run {α : Type} (g : Copy → α) (hg : ∀ (c : Copy) (rs : List Result), g { c with results := rs } = g c)
+    (s : St) (evs : List Event) : (run s evs).1.copies.map g = s.copies.map g := by
+  induction evs generalizing s with
+  | nil => rfl
+  | cons e es ih => simp only [run]; rw [ih, map_step g hg]
+
+theorem getElem?_updCopy_ne (cs : List Copy) (i j : Nat) (f : Copy → Copy) (h : j ≠ i) :
+    (updCopy cs i f)[j]? = cs[j]? := by
+  induction cs generalizing i j with
+  | nil => rfl
+  | cons c rest ih =>
+    cases i with
+    | zero =>
+      cases j with
+      | zero => exact absurd rfl h
+      | succ j => simp [updCopy]
+    | succ i =>
+      cases j with
+      | zero => simp [updCopy]
+      | succ j => simp only [updCopy, List.getElem?_cons_succ]; exact ih i j (by omega)
+
+theorem getElem?_updCopy_eq (cs : List Copy) (i : Nat) (f : Copy → Copy) :
+    (updCopy cs i f)[i]? = cs[i]?.map f := by
+  induction cs generalizing i with
+  | nil => rfl
+  | cons c rest ih =>
+    cases i with
+    | zero => simp [updCopy]
+    | succ i => simp only [updCopy, List.getElem?_cons_succ]; exact ih i
+
+/-- own result count of copy `j` -/
+def lenAt (cs : List Copy) (j : Nat) : Option Nat := cs[j]?.map (fun c => c.results.length)
+
+def LenMono (cs cs' : List Copy) : Prop := ∀ j n, lenAt cs j = some n → ∃ n', lenAt cs' j = some n' ∧ n ≤ n'
+
+theorem LenMono.refl (cs : List Copy) : LenMono cs cs := fun _ n h => ⟨n, h, Nat.le_refl _⟩
+
+theorem LenMono.trans {a b c : List Copy} (h1 : LenMono a b) (h2 : LenMono b c) : LenMono a c := by
+  intro j n h
+  obtain ⟨n1, h3, h4⟩ := h1 j n h
+  obtain ⟨n2, h5, h6⟩ := h2 j n1 h3
+  exact ⟨n2, h5, Nat.le_trans h4 h6⟩
+
+theorem lenMono_updCopy (cs : List Copy) (i : Nat) (f : Copy → Copy)
+    (hf : ∀ c0, cs[i]? = some c0 → c0.results.length ≤ (f c0).results.length) : LenMono cs (updCopy cs i f) := by
+  intro j n h
+  unfold lenAt at *
+  by_cases hj : j = i
+  · subst hj
+    rw [getElem?_updCopy_eq]
+    cases hc : cs[j]? with
+    | none => rw [hc] at h; cases h
+    | some c0 =>
+      rw [hc] at h; simp only [Option.map_some, Option.some.injEq] at h
+      exact ⟨(f c0).results.length, rfl, by have := hf c0 hc; omega⟩
+  · rw [getElem?_updCopy_ne _ _ _ _ hj]; exact ⟨n, h, Nat.le_refl _⟩
+
+theorem lenMono_step (s : St) (ev : Event) : LenMono s.copies (step s ev).1.copies := by
+  cases ev with
+  | start i =>
+    simp only [step, start]
+    cases hc : s.copies[i]? with
+    | none => exact LenMono.refl _
+    | some c =>
+      simp only; split
+      · exact LenMono.refl _
+      · exact lenMono_updCopy _ _ _ (fun c0 _ => by simp)
+  | finish j o =>
+    simp only [step, finish]
+    cases hp : s.pending[j]? with
+    | none => exact LenMono.refl _
+    | some e =>
+      simp only
+      cases hc : s.copies[e.copy]? with
+      | none => exact LenMono.refl _
+      | some c =>
+        simp only
+        cases hs : settle c.results s.job e.name e.uid o with
+        | error err => exact LenMono.refl _
+        | ok r =>
+          apply lenMono_updCopy
+          intro c0 h0; rw [hc] at h0; cases h0
+          simp only [settle_length hs]; exact Nat.le_refl _
+  | replay i prev =>
+    simp only [step, replayStep]
+    cases hc : s.copies[i]? with
+    | none => exact LenMono.refl _
+    | some c =>
+      simp only; split
+      · exact lenMono_updCopy _ _ _ (fun c0 _ => by simp)
+      · exact LenMono.refl _
+  | create i o =>
+    simp only [step, createStep]
+    cases hc : s.copies[i]? with
+    | none => exact LenMono.refl _
+    | some c =>
+      simp only; split
+      · exact LenMono.refl _
+      · cases hs : settle (c.results ++ [unknownOf c.preName]) s.job c.preName (uidOf c.prePfx c.results.length) o with
+        | error err => exact LenMono.refl _
+        | ok r =>
+          simp only; split
+          · exact lenMono_updCopy _ _ _ (fun c0 _ => by simp)
+          · exact lenMono_updCopy _ _ _ (fun c0 _ => by simp)
+
+
+/-! ### creation pre-steps -/
+
+def preStatics (cs : List Copy) : List (String × String) := cs.map (fun c => (c.preName, c.prePfx))
+
+/-- the pre-steps of one copy were started with strictly fewer own results than the copy holds now, and
+with pairwise different own result counts -/
+structure PreInv (s : St) : Prop where
+  bound : ∀ e ∈ s.preIssued, (∃ n, lenAt s.copies e.copy = some n ∧ e.k < n) ∧
+            ∃ p, (preStatics s.copies)[e.copy]? = some (e.name, p) ∧ e.uid = uidOf p e.k
+  distinct : s.preIssued.Pairwise (fun a b => a.copy = b.copy → a.k ≠ b.k)
+
+theorem preStatics_step (s : St) (ev : Event) : preStatics (step s ev).1.copies = preStatics s.copies :=
+  map_step _ (fun _ _ => rfl) s ev
+
+theorem PreInv.mono {s s' : St} (h : PreInv s) (hp : s'.preIssued = s.preIssued)
+    (hst : preStatics s'.copies = preStatics s.copies) (hl : LenMono s.copies s'.copies) : PreInv s' := by
+  refine ⟨?_, by rw [hp]; exact h.distinct⟩
+  intro e he; rw [hp] at he
+  obtain ⟨⟨n, hn, hk⟩, hs⟩ := h.bound e he
+  obtain ⟨n', hn', hle⟩ := hl _ _ hn
+  exact ⟨⟨n', hn', by omega⟩, by rw [hst]; exact hs⟩
+
+/-- what a creation attempt does to the ghost list and to the own result count of its copy -/
+theorem createStep_spec (s : St) (i : Nat) (o : Outcome) :
+    (createStep s i o).1.preIssued = s.preIssued ∨
+    ∃ c, s.copies[i]? = some c ∧
+      (createStep s i o).1.preIssued =
+        { copy := i, k := c.results.length, name := c.preName, uid := uidOf c.prePfx c.results.length } :: s.preIssued ∧
+      lenAt (createStep s i o).1.copies i = some (c.results.length + 1) := by
+  simp only [createStep]
+  cases hc : s.copies[i]? with
+  | none => exact Or.inl rfl
+  | some c =>
+    simp only
+    split
+    · exact Or.inl rfl
+    · cases hs : settle (c.results ++ [unknownOf c.preName]) s.job c.preName (uidOf c.prePfx c.results.length) o with
+      | error err => exact Or.inl rfl
+      | ok r =>
+        right
+        refine ⟨c, rfl, ?_⟩
+        have hlen : r.results.length = c.results.length + 1 := by
+          rw [settle_length hs]; simp
+        simp only
+        split
+        · refine ⟨rfl, ?_⟩
+          simp only [beginExec, lenAt, getElem?_updCopy_eq, hc, Option.map_some, List.length_append,
+            List.length_cons, List.length_nil]
+        · refine ⟨rfl, ?_⟩
+          simp only [lenAt, getElem?_updCopy_eq, hc, Option.map_some, List.length_append, List.length_drop, hlen]
+          congr 1; omega
+
+theorem step_preInv (s : St) (ev : Event) (h : PreInv s) : PreInv (step s ev).1 := by
+  have hst := preStatics_step s ev
+  have hl := lenMono_step s ev
+  cases ev with
+  | start i =>
+    refine h.mono ?_ hst hl
+    simp only [step, start]
+    cases hc : s.copies[i]? with
+    | none => rfl
+    | some c => simp only; split <;> rfl
+  | finish j o =>
+    refine h.mono ?_ hst hl
+    simp only [step, finish]
+    cases hp : s.pending[j]? with
+    | none => rfl
+    | some e =>
+      simp only
+      cases hc : s.copies[e.copy]? with
+      | none => rfl
+      | some c =>
+        simp only
+        cases hs : settle c.results s.job e.name e.uid o with
+        | error err => rfl
+        | ok r => rfl
+  | replay i prev =>
+    refine h.mono ?_ hst hl
+    simp only [step, replayStep]
+    cases hc : s.copies[i]? with
+    | none => rfl
+    | some c => simp only; split <;> rfl
+  | create i o =>
+    simp only [step] at hst hl ⊢
+    rcases createStep_spec s i o with hp | ⟨c, hc, hp, hlen⟩
+    · exact h.mono hp hst hl
+    · refine ⟨?_, ?_⟩
+      · intro e he
+        rw [hp] at he
+        rcases List.mem_cons.mp he with rfl | he
+        · refine ⟨⟨_, hlen, Nat.lt_succ_self _⟩, c.prePfx, ?_, rfl⟩
+          rw [hst]; simp only [preStatics, List.getElem?_map, hc, Option.map_some]
+        · obtain ⟨⟨n, hn, hk⟩, hs⟩ := h.bound e he
+          obtain ⟨n', hn', hle⟩ := hl _ _ hn
+          exact ⟨⟨n', hn', by omega⟩, by rw [hst]; exact hs⟩
+      · rw [hp, List.pairwise_cons]
+        refine ⟨?_, h.distinct⟩
+        intro a ha hcopy
+        obtain ⟨⟨n, hn, hk⟩, _⟩ := h.bound a ha
+        simp only at hcopy
+        rw [← hcopy] at hn
+        simp only [lenAt, hc, Option.map_some, Option.some.injEq] at hn
+        simp only; omega
+
+theorem run_preInv (s : St) (evs : List Event) (h : PreInv s) : PreInv (run s evs).1 := by
+  induction evs generalizing s with
+  | nil => exact h
+  | cons e es ih => simp only [run]; exact ih _ (step_preInv s e h)
+
+theorem preStatics_run (s : St) (evs : List Event) : preStatics (run s evs).1.copies = preStatics s.copies :=
+  map_run _ (fun _ _ => rfl) s evs
+
+/-- the pre-nodes of different copies (different workers) have different names -/
+def PreNamesInj (cs : List Copy) : Prop :=
+  ∀ (i j : Nat) (p q : String × String), (preStatics cs)[i]? = some p → (preStatics cs)[j]? = some q → p.1 = q.1 → i = j
+
+theorem pre_ids_nodup_of_preInv {s : St} (h : PreInv s) (hn : PreNamesInj s.copies) :
+    (s.preIssued.map (fun e => (e.name, e.uid))).Nodup := by
+  rw [List.Nodup, List.pairwise_map]
+  refine List.Pairwise.imp_of_mem ?_ h.distinct
+  intro a b ha hb hk heq
+  obtain ⟨_, p, hp, hu⟩ := h.bound a ha
+  obtain ⟨_, q, hq, hv⟩ := h.bound b hb
+  simp only [Prod.mk.injEq] at heq
+  have hcopy : a.copy = b.copy := hn _ _ _ _ hp hq heq.1
+  rw [hcopy] at hp
+  rw [hp] at hq
+  simp only [Option.some.injEq, Prod.mk.injEq] at hq
+  rw [hu, hv, hq.2] at heq
+  exact hk hcopy (uidOf_inj q heq.2)
 
 end I2N.Lemmas.Rules
